@@ -104,10 +104,12 @@ CHECKS = {
     },
     "C01": {
         "level": "translation_validation",
-        "technique": "TLA+ reference semantics Core (Accept/Run) + TLC generators GenExpr/GenProg; generated programs compiled by the real "
+        "technique": "TLA+ reference semantics Core (Accept/Run) + TLC generators GenExpr/GenProg/GenData/GenCtl/GenColl/GenObj; generated programs compiled by the real "
                      "`incan build`, run, compared with Run(p); recorded executions validated by TLC (PipelineTrace)",
         "text": "Core.tla is an independent statement of the documented static and dynamic semantics of the modelled subset; TLC enumerates "
-                "programs (expressions to a depth bound, statement programs via a frame machine, simulation for deeper ones), checks "
+                "programs (expressions to a depth bound, statement programs via a frame machine, data types / match / `?`, control-flow chains x loop "
+                "contexts x jumps, string / collection / closure / comprehension / f-string / tuple operations, models and classes with methods, "
+                "mut self, field assignment, trait defaults and inheritance; simulation for deeper ones), checks "
                 "soundness of the semantics on each, and prints Run(p) with feature tags. Each sampled case is rendered (self-checked by "
                 "parse(render(t)) == t), compiled by the real CLI, executed, and its stdout / error text compared value by value; real "
                 "executions are also fed back to TLC, which recomputes Accept/Run from the event's program.",
@@ -138,7 +140,8 @@ CHECKS = {
     "C09": {
         "level": "exploration",
         "technique": "TLA+ contract Format.RunStable/Canonical + `incan fmt` mode machine (TLC); real formatter applied twice to the C08 "
-                     "space + layout-edited variants; line traces and real CLI sessions validated by TLC (FormatTrace)",
+                     "space + layout-edited variants; line traces and real CLI sessions (files as generated / CRLF / no final newline / trailing "
+                     "blank lines) validated by TLC (FormatTrace)",
         "text": "Idempotence and canonical form are evaluated by TLC on the recorded line trace of every real formatter run; the CLI modes "
                 "(fmt / --check / --diff) are a small TLC-checked state machine against which recorded real sessions (exit status, file "
                 "bytes and mtime before/after) are validated.",
@@ -146,7 +149,7 @@ CHECKS = {
     },
     "C11": {
         "level": "exploration",
-        "technique": "TLA+-generated inputs (Layout class strings with exact lex verdict, Core programs) + seeded mutation operators; every "
+        "technique": "TLA+-generated inputs (Layout class strings with exact lex verdict, the literal grammar GenLit, Core programs) + seeded mutation operators; every "
                      "front-end stage monitored in a watchdog with catch_unwind; diagnostics checked for well-formedness and rendered",
         "text": "Totality is a statement about all UTF-8 inputs; the specification structures the walk (all layouts up to the bound with an "
                 "exact oracle for the lexer's verdict, valid generated programs as mutation seeds) and the harness monitors lex, parse, "
@@ -181,8 +184,10 @@ CHECKS = {
     },
     "C03": {
         "level": "model_checking",
-        "technique": "TLA+ specs GenMut (Core.Accept decides: one mutation at one position in nested blocks; invariant MutantsAreIllTyped) "
-                     "and Rules (documented rule table x hosts x blocks); every mutant and its well-typed twin through the real checker; "
+        "technique": "TLA+ specs GenMut (Core.Accept decides: one mutation at one position in nested blocks; invariant MutantsAreIllTyped), "
+                     "Rules (documented rule table x hosts x blocks), GenTypes (assignability relation over a type universe x value forms x 8 flow "
+                     "sites) and GenHole (ill-typed expression x expression contexts x statement contexts); every case and its well-typed twin "
+                     "through the real checker; "
                      "a diagnostic must intersect the offending construct",
         "text": "For the Core-expressible rules TLC constructs a well-typed program, applies one mutation operator at one position inside "
                 "0..3 nested blocks of every kind and emits it only if the specification's Accept rejects it and accepts the twin; the "
